@@ -121,6 +121,11 @@ def do_run(ids, tier="quick", all_checks=False):
 
 
 HARMLESS = VERIF / "seeded-harmless"
+_DISC = ["C01", "C02", "C03", "C04", "C05", "C06", "C07"]
+_EST = ["C01", "C03", "C04", "C05", "C06", "C07", "C08", "C09", "C10", "C11", "C12", "C13"]
+RELEVANT = {"core/discovery.py": _DISC, "information/conditional_mutual_information.py": _EST, "information/mutual_information.py": _EST,
+            "information/entropy.py": _EST, "core/linalg.py": ["C08", "C10", "C16", "C01", "C06"], "core/stats.py": ["C17"], "graph/utils.py": ["C14", "C15"],
+            "datasets/synthetic.py": ["C18", "C19", "C05"], "core/plotting.py": ["C20"]}
 
 
 def import_harmless(srcdir, k, sid):
@@ -164,14 +169,23 @@ def run_harmless(ids, tier="quick"):
                 print(sid, "patch does not apply"); continue
             touched = set(l.split()[-1] for l in (d / "patch.diff").read_text().splitlines() if l.startswith("+++ "))
             alarms = {}
-            for p in props:
+            run_props = props
+            if os.environ.get("HARMLESS_RELEVANT"):
+                # only the checks that execute the rewritten code (a rewrite of graph/utils.py cannot be seen by the Poisson-entropy check)
+                rel = set()
+                for t in touched:
+                    for frag, ps in RELEVANT.items():
+                        if frag in t:
+                            rel |= set(ps)
+                run_props = [p for p in props if p in rel] or props
+            for p in run_props:
                 env = dict(os.environ, CE_REPO=str(wt), CE_EVIDENCE_DIR=f"/tmp/mutwt/evh-{sid}")
                 rc, out = sh(f"./check {p} {tier}", cwd=VERIF, env=env, timeout=7200)
                 if rc != 0:
                     alarms[p] = next((l for l in out.splitlines() if l.startswith("VIOLATION") or "INFRA" in l), f"rc={rc}")
             with locked(HARMLESS / "results.json"):
                 allres = json.loads((HARMLESS / "results.json").read_text()) if (HARMLESS / "results.json").exists() else {}
-                allres[sid] = alarms or "silent (all checks exit 0)"
+                allres[sid] = alarms or ("silent (all checks exit 0)" if run_props == props else "silent (checks that execute the rewritten code: " + " ".join(run_props) + ")")
                 print(sid, json.dumps(allres[sid]))
                 (HARMLESS / "results.json").write_text(json.dumps(allres, indent=1, sort_keys=True) + "\n")
         finally:
